@@ -34,3 +34,397 @@ Proof.
       * intros H p' [<-|Hp'] kv Hkv; [|now apply H]. unfold find1 in E. now apply (find_none _ _ E).
       * intros H p' Hp'. apply H. now right.
 Qed.
+
+(* ---------- monadic plumbing ---------- *)
+Lemma rbind_ok {A B} (r : res A) (f : A -> res B) b :
+  rbind r f = Ok b -> exists a, r = Ok a /\ f a = Ok b.
+Proof. destruct r as [a|e]; cbn [rbind]; [intros H; now exists a|discriminate]. Qed.
+
+Lemma omap_Forall2 {A B} (f : A -> option B) l l' :
+  omap f l = Some l' -> Forall2 (fun x y => f x = Some y) l l'.
+Proof.
+  revert l'; induction l as [|x r IH]; intros l'; cbn [omap obind].
+  - intros H; injection H as <-. constructor.
+  - destruct (f x) as [y|] eqn:E; cbn [obind]; [|discriminate].
+    destruct (omap f r) as [ys|] eqn:E2; cbn [obind]; [|discriminate].
+    intros H; injection H as <-. constructor; [exact E|]. now apply IH.
+Qed.
+
+Lemma omap_res_Forall2 {A B} (f : A -> option B) l l' :
+  omap_res f l = Ok l' -> Forall2 (fun x y => f x = Some y) l l'.
+Proof.
+  revert l'; induction l as [|x r IH]; intros l'; cbn [omap_res].
+  - intros H; injection H as <-. constructor.
+  - destruct (f x) as [y|] eqn:E; [|discriminate].
+    intros H. apply rbind_ok in H as (ys & Hys & H). injection H as <-.
+    constructor; [exact E|]. now apply IH.
+Qed.
+
+(* ---------- scrubbing and squeezing ---------- *)
+Lemma read_full_data a : a_data (read_full a) = map scrub (a_data a).
+Proof. reflexivity. Qed.
+Lemma read_full_shape a : a_shape (read_full a) = filter (fun d => negb (d =? 1)) (a_shape a).
+Proof. reflexivity. Qed.
+Lemma read_full_dt a : a_dt (read_full a) = a_dt a.
+Proof. reflexivity. Qed.
+Lemma scrub_finite t : is_finite (scrub t) = true.
+Proof. destruct t; reflexivity. Qed.
+Lemma scrub_id t : is_finite t = true -> scrub t = t.
+Proof. destruct t; cbn; congruence. Qed.
+
+Lemma read_full_scrubbed a :
+  Forall (fun t => is_finite t = true) (a_data (read_full a)) /\
+  forall i t, nth_error (a_data a) i = Some t ->
+              nth_error (a_data (read_full a)) i = Some (if is_finite t then t else tzero).
+Proof.
+  rewrite read_full_data. split.
+  - apply Forall_forall. intros t Ht. apply in_map_iff in Ht as (x & <- & _). apply scrub_finite.
+  - intros i t H. rewrite nth_error_map, H. reflexivity.
+Qed.
+
+(* ---------- raw traces ---------- *)
+Lemma Forall2_nth_error {A B} (R : A -> B -> Prop) l l' :
+  Forall2 R l l' -> forall i x, nth_error l i = Some x -> exists y, nth_error l' i = Some y /\ R x y.
+Proof.
+  induction 1 as [|a b l l' Hab HF IH]; intros i x Hi; [destruct i; discriminate|].
+  destruct i as [|i]; cbn [nth_error] in *.
+  - injection Hi as <-. now exists b.
+  - now apply IH.
+Qed.
+
+Lemma Forall2_weaken {A B} (R R' : A -> B -> Prop) l l' :
+  (forall x y, R x y -> R' x y) -> Forall2 R l l' -> Forall2 R' l l'.
+Proof. intros HR. induction 1; constructor; auto. Qed.
+
+Lemma Forall2_length {A B} (R : A -> B -> Prop) l l' : Forall2 R l l' -> List.length l = List.length l'.
+Proof. induction 1; cbn [List.length]; congruence. Qed.
+
+Lemma traces_full_spec raw cmap rows :
+  traces_full raw cmap = Some rows ->
+  List.length rows = List.length (List.concat raw) /\
+  forall i row, nth_error (List.concat raw) i = Some row ->
+    exists out, nth_error rows i = Some out /\ List.length out = List.length cmap /\
+      forall j c, nth_error cmap j = Some c ->
+        0 <= c < Z.of_nat (List.length row) /\ nth_error out j = nth_error row (Z.to_nat c).
+Proof.
+  unfold traces_full. intros H. apply omap_Forall2 in H. split.
+  - symmetry. eapply Forall2_length; exact H.
+  - intros i row Hi. destruct (Forall2_nth_error _ _ _ H i row Hi) as (out & Hout & Hsel).
+    exists out. split; [exact Hout|]. unfold select_cols in Hsel. apply omap_Forall2 in Hsel.
+    split; [symmetry; eapply Forall2_length; exact Hsel|].
+    intros j c Hj. destruct (Forall2_nth_error _ _ _ Hsel j c Hj) as (v & Hv & Hc).
+    destruct ((0 <=? c) && (c <? Z.of_nat (List.length row))) eqn:E; [|discriminate].
+    apply andb_true_iff in E as [E1 E2]. apply Z.leb_le in E1. apply Z.ltb_lt in E2.
+    split; [lia|]. now rewrite Hv, Hc.
+Qed.
+
+(* ---------- the loader ---------- *)
+Section LoadProofs.
+Variable fdiv : tok -> tok -> option tok.
+Variable fmul : tok -> tok -> option tok.
+Variable fround : tok -> option Z.
+Variable inv_oracle : arr -> arr.
+Notation load' := (load fdiv fmul fround inv_oracle).
+Notation lss := (load_spike_samples fdiv fmul fround).
+
+Lemma load_inv fs rate ncd m : load' fs rate ncd = Ok m ->
+  exists st ns sc wmi,
+    lss fs rate = Ok st /\ check_times (fst st) (snd st) = Ok ns /\
+    l_samples m = fst st /\ l_times m = snd st /\
+    load_amps fs ns = Ok (l_amps m) /\
+    load_stemplates fs ns = Ok (l_stemplates m) /\
+    load_sclusters fs ns = Ok sc /\ l_sclusters m = fst sc /\
+    load_cmap fs ncd = Ok (l_cmap m) /\
+    load_pos fs (hd 0 (a_shape (l_cmap m))) = Ok (l_pos m) /\
+    load_shanks fs (hd 0 (a_shape (l_cmap m))) = Ok (l_shanks m) /\
+    load_probes fs (hd 0 (a_shape (l_cmap m))) = Ok (l_probes m) /\
+    load_templates fs = Ok (l_tdata m) /\
+    load_tcols fs (hd 0 (a_shape (l_tdata m))) (nth 2 (a_shape (l_tdata m)) 0) = Ok (l_tcols m) /\
+    load_wm fs (hd 0 (a_shape (l_cmap m))) = Ok (l_wm m) /\
+    load_wmi inv_oracle fs (hd 0 (a_shape (l_cmap m))) (l_wm m) = Ok wmi /\ l_wmi m = fst wmi /\
+    load_similar fs (hd 0 (a_shape (l_tdata m))) = Ok (l_similar m) /\
+    load_spike_attrs fs ns = Ok (l_attrs m) /\
+    l_created m = snd sc ++ snd wmi.
+Proof.
+  unfold load. intros H.
+  apply rbind_ok in H as (st & Hst & H). apply rbind_ok in H as (ns & Hns & H).
+  apply rbind_ok in H as (amps & Hamps & H). apply rbind_ok in H as (stemp & Hstemp & H).
+  apply rbind_ok in H as (sc & Hsc & H). apply rbind_ok in H as (cmap & Hcmap & H).
+  apply rbind_ok in H as (pos & Hpos & H). apply rbind_ok in H as (shanks & Hshanks & H).
+  apply rbind_ok in H as (probes & Hprobes & H). apply rbind_ok in H as (tmpl & Htmpl & H).
+  apply rbind_ok in H as (tcols & Htcols & H). apply rbind_ok in H as (wm & Hwm & H).
+  apply rbind_ok in H as (wmi & Hwmi & H). apply rbind_ok in H as (sim & Hsim & H).
+  apply rbind_ok in H as (attrs & Hattrs & H). injection H as <-.
+  exists st, ns, sc, wmi. cbn. repeat split; assumption.
+Qed.
+
+(* non-monotonic spike times are rejected, whatever else the directory contains *)
+Lemma load_rejects fs rate ncd st :
+  lss fs rate = Ok st -> ndim (fst st) = 1%nat -> ndim (snd st) = 1%nat ->
+  toks_sorted (a_data (snd st)) = Some false ->
+  load' fs rate ncd = Err ERejected.
+Proof.
+  intros H1 H2 H3 H4. unfold load. rewrite H1. cbn [rbind]. unfold check_times.
+  rewrite H2, H3, H4. reflexivity.
+Qed.
+
+Lemma check_times_ok s t ns : check_times s t = Ok ns ->
+  toks_sorted (a_data t) = Some true /\ ns = hd 0 (a_shape t) /\ ndim s = 1%nat /\ ndim t = 1%nat.
+Proof.
+  unfold check_times. destruct ((ndim s =? 1)%nat && (ndim t =? 1)%nat) eqn:E; cbn [negb]; [|discriminate].
+  apply andb_true_iff in E as [E1 E2]. apply Nat.eqb_eq in E1, E2.
+  destruct (toks_sorted (a_data t)) as [[|]|]; try discriminate. intros H; injection H as <-. auto.
+Qed.
+
+Lemma load_times_sorted fs rate ncd m : load' fs rate ncd = Ok m ->
+  toks_sorted (a_data (l_times m)) = Some true /\ ndim (l_times m) = 1%nat /\ ndim (l_samples m) = 1%nat.
+Proof.
+  intros H. destruct (load_inv _ _ _ _ H) as (st & ns & sc & wmi & _ & Hct & -> & -> & _).
+  apply check_times_ok in Hct. tauto.
+Qed.
+
+(* KS layout: samples are the file, times are samples / rate (one binary64 division each) *)
+Lemma load_times_ks fs rate ncd m kv : load' fs rate ncd = Ok m ->
+  find_path P_times_ks fs = Some kv ->
+  l_samples m = read_full (snd kv) /\ a_dt (l_times m) = DF64 /\ a_shape (l_times m) = a_shape (l_samples m) /\
+  Forall2 (fun s t => fdiv s rate = Some t) (a_data (l_samples m)) (a_data (l_times m)).
+Proof.
+  intros H Hk. destruct (load_inv _ _ _ _ H) as (st & ns & sc & wmi & Hst & _ & -> & -> & _).
+  unfold load_spike_samples in Hst. rewrite Hk in Hst. destruct kv as [k a]. cbn [snd].
+  apply rbind_ok in Hst as (ts & Hts & Hst). injection Hst as <-. cbn [fst snd a_dt a_shape a_data].
+  repeat split. now apply omap_res_Forall2.
+Qed.
+
+(* ALF layout: times are the stored seconds; samples are the stored samples, or round(times * rate) *)
+Lemma load_times_alf fs rate ncd m : load' fs rate ncd = Ok m ->
+  find_path P_times_ks fs = None ->
+  exists kt, find_path P_times_alf fs = Some kt /\ l_times m = read_full (snd kt) /\
+    match find_path P_samples_alf fs with
+    | Some ks => l_samples m = read_full (snd ks)
+    | None => a_dt (l_samples m) = DU64 /\ a_shape (l_samples m) = a_shape (l_times m) /\
+              Forall2 (fun t s => exists p z, fmul t rate = Some p /\ fround p = Some z /\ s = tz z)
+                      (a_data (l_times m)) (a_data (l_samples m))
+    end.
+Proof.
+  intros H Hk. destruct (load_inv _ _ _ _ H) as (st & ns & sc & wmi & Hst & _ & -> & -> & _).
+  unfold load_spike_samples in Hst. rewrite Hk in Hst.
+  destruct (find_path P_times_alf fs) as [[k t]|]; [|discriminate]. exists (k, t). split; [reflexivity|].
+  destruct (find_path P_samples_alf fs) as [[k2 s]|].
+  - injection Hst as <-. cbn [fst snd]. split; reflexivity.
+  - apply rbind_ok in Hst as (ss & Hss & Hst). injection Hst as <-. cbn [fst snd a_dt a_shape a_data].
+    split; [reflexivity|]. repeat split. apply omap_res_Forall2 in Hss.
+    eapply Forall2_weaken; [|exact Hss]. cbv beta. intros t0 s0 Hx.
+    destruct (fmul t0 rate) as [p|] eqn:Ep; cbn [obind] in Hx; [|discriminate].
+    destruct (fround p) as [z|] eqn:Ez; cbn [option_map] in Hx; [|discriminate]. injection Hx as <-.
+    exists p, z. repeat split; assumption.
+Qed.
+
+(* ----- attribute rules: the first existing name of the priority list, squeezed and scrubbed,
+         or the documented default ----- *)
+Definition src (ps : list pat) (fs : files) : option arr := option_map snd (find_path ps fs).
+
+Lemma src_some ps fs k a : find_path ps fs = Some (k, a) -> src ps fs = Some a.
+Proof. unfold src. now intros ->. Qed.
+Lemma src_none ps fs : find_path ps fs = None -> src ps fs = None.
+Proof. unfold src. now intros ->. Qed.
+
+Lemma load_amps_rule fs ns r : load_amps fs ns = Ok r -> r = option_map read_full (src P_amps fs).
+Proof.
+  unfold load_amps, src. destruct (find_path P_amps fs) as [[k a]|]; cbn [option_map snd].
+  - destruct (_ && _); [|discriminate]. now intros H; injection H as <-.
+  - now intros H; injection H as <-.
+Qed.
+
+Lemma load_stemplates_rule fs ns r : load_stemplates fs ns = Ok r ->
+  exists a, src P_stemplates fs = Some a /\
+            r = (if dt_is_float (a_dt a) then astype DI32 (read_full a) else read_full a) /\
+            a_shape r = [ns].
+Proof.
+  unfold load_stemplates, src. destruct (find_path P_stemplates fs) as [[k a]|]; [|discriminate].
+  cbn [option_map snd]. rewrite read_full_dt.
+  destruct (dt_in _ _ && zl_eqb _ _) eqn:E; [|discriminate]. intros H; injection H as <-.
+  exists a. split; [reflexivity|]. apply andb_true_iff in E as [_ E].
+  split; [reflexivity|]. clear -E. revert E. generalize (a_shape (if dt_is_float (a_dt a) then astype DI32 (read_full a) else read_full a)).
+  intros l. destruct l as [|x [|y l]]; cbn [zl_eqb]; try discriminate.
+  - rewrite andb_true_r. intros E. f_equal. now apply Z.eqb_eq.
+  - rewrite andb_false_r. discriminate.
+Qed.
+
+Lemma load_sclusters_rule fs ns sc : load_sclusters fs ns = Ok sc ->
+  exists a, fst sc = astype DI32 (read_full a) /\
+    match src P_sclusters fs with
+    | Some f => a = f /\ snd sc = []
+    | None => src P_stemplates fs = Some a /\ snd sc = [("spike_clusters.npy", a)]
+    end.
+Proof.
+  unfold load_sclusters, sclusters_source, src. intros H. apply rbind_ok in H as ([a cr] & Hs & H).
+  cbn [fst snd] in H. destruct (zl_eqb _ _); [|discriminate]. injection H as <-. cbn [fst snd].
+  exists a. split; [reflexivity|].
+  destruct (find_path P_sclusters fs) as [[k f]|]; cbn [option_map snd].
+  - injection Hs as <- <-. split; reflexivity.
+  - destruct (find_path P_stemplates fs) as [[k f]|]; [|discriminate]. injection Hs as <- <-.
+    split; reflexivity.
+Qed.
+
+Lemma load_cmap_rule fs ncd r : load_cmap fs ncd = Ok r ->
+  exists a, src P_cmap fs = Some a /\ r = atleast_1d (read_full a) /\ ndim r = 1%nat /\
+    forall k, ncd = Some k -> forall t, In t (a_data r) -> exists z, tok_Z t = Some z /\ z <= k - 1.
+Proof.
+  unfold load_cmap, src. destruct (find_path P_cmap fs) as [[k a]|]; [|discriminate]. cbn [option_map snd].
+  destruct ((ndim _ =? 1)%nat && _) eqn:E; cbn [negb]; [|discriminate].
+  apply andb_true_iff in E as [E _]. apply Nat.eqb_eq in E.
+  destruct ncd as [kk|].
+  - destruct (forallb _ _) eqn:EF; cbn [negb]; [|discriminate]. intros H; injection H as <-.
+    exists a. repeat split; [exact E|]. intros k0 Hk0 t Ht. injection Hk0 as <-.
+    rewrite forallb_forall in EF. specialize (EF t Ht). destruct (tok_Z t) as [z|]; [|discriminate].
+    exists z. split; [reflexivity|]. now apply Z.leb_le.
+  - intros H; injection H as <-. exists a. repeat split; [exact E|]. discriminate.
+Qed.
+
+Lemma load_pos_rule fs nc r : load_pos fs nc = Ok r ->
+  exists a, src P_pos fs = Some a /\ r = atleast_2d (read_full a).
+Proof.
+  unfold load_pos, src. destruct (find_path P_pos fs) as [[k a]|]; [|discriminate]. cbn [option_map snd].
+  destruct (zl_eqb _ _); [|discriminate]. intros H; injection H as <-. now exists a.
+Qed.
+
+Lemma load_shanks_rule fs nc r : load_shanks fs nc = Ok r ->
+  r = match src P_shanks fs with None => zeros DI32 [nc] | Some a => flatten (read_full a) end.
+Proof.
+  unfold load_shanks, src. destruct (find_path P_shanks fs) as [[k a]|]; cbn [option_map snd].
+  - destruct (zl_eqb _ _); [|discriminate]. now intros H; injection H as <-.
+  - now intros H; injection H as <-.
+Qed.
+Lemma load_probes_rule fs nc r : load_probes fs nc = Ok r ->
+  r = match src P_probes fs with None => zeros DI32 [nc] | Some a => atleast_1d (read_full a) end.
+Proof.
+  unfold load_probes, src. destruct (find_path P_probes fs) as [[k a]|]; cbn [option_map snd].
+  - destruct (zl_eqb _ _); [|discriminate]. now intros H; injection H as <-.
+  - now intros H; injection H as <-.
+Qed.
+Lemma load_wm_rule fs nc r : load_wm fs nc = Ok r ->
+  r = match src P_wm fs with None => eye nc | Some a => atleast_2d (read_full a) end.
+Proof.
+  unfold load_wm, src. destruct (find_path P_wm fs) as [[k a]|]; cbn [option_map snd].
+  - destruct (zl_eqb _ _); [|discriminate]. now intros H; injection H as <-.
+  - now intros H; injection H as <-.
+Qed.
+Lemma load_similar_rule fs nt r : load_similar fs nt = Ok r ->
+  r = match src P_similar fs with None => zeros DF64 [nt; nt] | Some a => atleast_2d (read_full a) end.
+Proof.
+  unfold load_similar, src. destruct (find_path P_similar fs) as [[k a]|]; cbn [option_map snd].
+  - destruct (zl_eqb _ _); [|discriminate]. now intros H; injection H as <-.
+  - now intros H; injection H as <-.
+Qed.
+Lemma load_wmi_rule fs nc wm r : load_wmi inv_oracle fs nc wm = Ok r ->
+  match src P_wmi fs with
+  | Some a => fst r = atleast_2d (read_full a) /\ snd r = []
+  | None => fst r = inv_oracle wm /\ snd r = [("whitening_mat_inv.npy", inv_oracle wm)]
+  end.
+Proof.
+  unfold load_wmi, src. destruct (find_path P_wmi fs) as [[k a]|]; cbn [option_map snd].
+  - destruct (zl_eqb _ _); [|discriminate]. intros H; injection H as <-. split; reflexivity.
+  - intros H; injection H as <-. split; reflexivity.
+Qed.
+Lemma load_templates_rule fs r : load_templates fs = Ok r ->
+  exists a, src P_templates fs = Some a /\ zero_nan_templates (atleast_3d (squeeze a)) = Ok r.
+Proof.
+  unfold load_templates, src, read_mmap. destruct (find_path P_templates fs) as [[k a]|]; [|discriminate].
+  cbn [option_map snd]. destruct (negb _); [discriminate|]. intros H. now exists a.
+Qed.
+
+(* all attribute rules of a successful load, in one statement *)
+Lemma load_attributes fs rate ncd m : load' fs rate ncd = Ok m ->
+  let nc := hd 0 (a_shape (l_cmap m)) in
+  let nt := hd 0 (a_shape (l_tdata m)) in
+  l_amps m = option_map read_full (src P_amps fs) /\
+  (exists a, src P_stemplates fs = Some a /\
+     l_stemplates m = (if dt_is_float (a_dt a) then astype DI32 (read_full a) else read_full a)) /\
+  (exists a, l_sclusters m = astype DI32 (read_full a) /\
+     match src P_sclusters fs with Some f => a = f | None => src P_stemplates fs = Some a end) /\
+  (exists a, src P_cmap fs = Some a /\ l_cmap m = atleast_1d (read_full a)) /\
+  (exists a, src P_pos fs = Some a /\ l_pos m = atleast_2d (read_full a)) /\
+  l_shanks m = match src P_shanks fs with None => zeros DI32 [nc] | Some a => flatten (read_full a) end /\
+  l_probes m = match src P_probes fs with None => zeros DI32 [nc] | Some a => atleast_1d (read_full a) end /\
+  (exists a, src P_templates fs = Some a /\ zero_nan_templates (atleast_3d (squeeze a)) = Ok (l_tdata m)) /\
+  l_wm m = match src P_wm fs with None => eye nc | Some a => atleast_2d (read_full a) end /\
+  l_wmi m = match src P_wmi fs with None => inv_oracle (l_wm m) | Some a => atleast_2d (read_full a) end /\
+  l_similar m = match src P_similar fs with None => zeros DF64 [nt; nt] | Some a => atleast_2d (read_full a) end.
+Proof.
+  intros H nc nt.
+  destruct (load_inv _ _ _ _ H) as (st & ns & sc & wmi & _ & _ & _ & _ & Hamps & Hst & Hsc & Esc & Hcm & Hpos &
+                                    Hsh & Hpr & Htm & _ & Hwm & Hwmi & Ewmi & Hsim & _ & _).
+  split; [now apply load_amps_rule in Hamps|].
+  split; [apply load_stemplates_rule in Hst as (a & H1 & H2 & _); now exists a|].
+  split.
+  { apply load_sclusters_rule in Hsc as (a & H1 & H2). exists a. rewrite Esc. split; [exact H1|].
+    destruct (src P_sclusters fs); tauto. }
+  split; [apply load_cmap_rule in Hcm as (a & H1 & H2 & _); now exists a|].
+  split; [now apply load_pos_rule in Hpos|].
+  split; [now apply load_shanks_rule in Hsh|].
+  split; [now apply load_probes_rule in Hpr|].
+  split; [now apply load_templates_rule in Htm|].
+  split; [now apply load_wm_rule in Hwm|].
+  split; [|now apply load_similar_rule in Hsim].
+  apply load_wmi_rule in Hwmi. rewrite Ewmi. destruct (src P_wmi fs); tauto.
+Qed.
+
+(* frame: the only files a load creates are the spike-cluster copy (a byte copy of the template
+   file) and the inverse whitening matrix, each only when no file of that role exists *)
+Lemma load_frame fs rate ncd m : load' fs rate ncd = Ok m ->
+  l_created m =
+    (match src P_sclusters fs with
+     | Some _ => []
+     | None => match src P_stemplates fs with Some a => [("spike_clusters.npy", a)] | None => [] end
+     end) ++
+    (match src P_wmi fs with Some _ => [] | None => [("whitening_mat_inv.npy", l_wmi m)] end).
+Proof.
+  intros H.
+  destruct (load_inv _ _ _ _ H) as (st & ns & sc & wmi & _ & _ & _ & _ & _ & _ & Hsc & _ & _ & _ &
+                                    _ & _ & _ & _ & _ & Hwmi & Ewmi & _ & _ & ->).
+  apply load_sclusters_rule in Hsc as (a & _ & H2). apply load_wmi_rule in Hwmi. rewrite Ewmi. f_equal.
+  - destruct (src P_sclusters fs); [tauto|]. destruct H2 as [-> ->]. reflexivity.
+  - destruct (src P_wmi fs); [tauto|]. destruct Hwmi as [-> ->]. reflexivity.
+Qed.
+
+(* extra per-spike attributes: exactly the spike_<n>.npy files outside the reserved names whose first
+   dimension (after squeezing) is the number of spikes *)
+Lemma load_attrs_spec fs ns l : load_spike_attrs fs ns = Ok l ->
+  forall n a, In (n, a) l <->
+    exists fname f, In (fname, f) fs /\ spike_attr_name fname = Some n /\ str_in n SKIP_SPIKE_ATTRS = false /\
+                    a = read_full f /\ hd (ns + 1) (a_shape a) = ns.
+Proof.
+  revert l. induction fs as [|[fname f] r IH]; intros l; cbn [load_spike_attrs fold_right].
+  - intros H; injection H as <-. intros n a. split; [intros []|intros (? & ? & [] & _)].
+  - fold (load_spike_attrs r ns). intros H. apply rbind_ok in H as (l0 & Hl0 & H). specialize (IH l0 Hl0).
+    cbn [fst snd] in H.
+    assert (Hskip : forall n a, In (n, a) l0 <->
+              (exists fname0 f0, In (fname0, f0) r /\ spike_attr_name fname0 = Some n /\
+                 str_in n SKIP_SPIKE_ATTRS = false /\ a = read_full f0 /\ hd (ns + 1) (a_shape a) = ns)) by exact IH.
+    destruct (spike_attr_name fname) as [n0|] eqn:En.
+    2:{ injection H as <-. intros n a. rewrite Hskip. split.
+        - intros (x & y & Hin & Hrest). exists x, y. split; [now right|exact Hrest].
+        - intros (x & y & [Heq|Hin] & Hn & Hrest); [injection Heq as -> ->; congruence|].
+          exists x, y. split; [exact Hin|]. split; [exact Hn|exact Hrest]. }
+    destruct (str_in n0 SKIP_SPIKE_ATTRS) eqn:Es.
+    { injection H as <-. intros n a. rewrite Hskip. split.
+      - intros (x & y & Hin & Hrest). exists x, y. split; [now right|exact Hrest].
+      - intros (x & y & [Heq|Hin] & Hn & Hs & Hrest); [injection Heq as -> ->; congruence|].
+        exists x, y. split; [exact Hin|]. split; [exact Hn|]. split; [exact Hs|exact Hrest]. }
+    destruct (a_shape (read_full f)) as [|d0 ds] eqn:Esh; [discriminate|].
+    destruct (d0 =? ns) eqn:Ed.
+    + injection H as <-. intros n a. cbn [In]. rewrite Hskip. split.
+      * intros [Heq|(x & y & Hin & Hrest)].
+        -- injection Heq as <- <-. exists fname, f. split; [now left|]. split; [exact En|]. split; [exact Es|].
+           split; [reflexivity|]. rewrite Esh. cbn [hd]. lia.
+        -- exists x, y. split; [now right|exact Hrest].
+      * intros (x & y & [Heq|Hin] & Hn & Hs & Ha & Hd).
+        -- injection Heq as -> ->. left. rewrite En in Hn. injection Hn as ->. now rewrite Ha.
+        -- right. exists x, y. repeat split; assumption.
+    + injection H as <-. intros n a. rewrite Hskip. split.
+      * intros (x & y & Hin & Hrest). exists x, y. split; [now right|exact Hrest].
+      * intros (x & y & [Heq|Hin] & Hn & Hs & Ha & Hd).
+        -- injection Heq as -> ->. subst a. rewrite Esh in Hd. cbn [hd] in Hd. lia.
+        -- exists x, y. repeat split; assumption.
+Qed.
+End LoadProofs.
